@@ -41,7 +41,7 @@ def check(ctx):
     if not ctx.cargo_build():
         return
     quick = ctx.tier == "quick"
-    runs = [("comm", 700 if quick else 12000)] + ([] if quick else [("commbig", 400)])
+    runs = [("comm", 700 if quick else 8000)] + ([] if quick else [("commbig", 160)])
     cases, hung = [], []
     for mode, n in runs:
         cmd = [ctx.harness_bin("harness"), mode, str(ctx.seed), str(n)]
